@@ -529,8 +529,11 @@ pub trait MapValidBasic<T: IsNone>: TrustedLen<Item = T> + Sized {
                             if last_value == Some(v.clone()) {
                                 None
                             } else {
+                                // a run of equal values ends at i only if there was one
+                                // (nothing to report after leading nulls)
+                                let out = if last_value.is_some() { Some(i) } else { None };
                                 last_value = Some(v);
-                                Some(i)
+                                out
                             }
                         } else {
                             let out = if last_value.is_some() { Some(i) } else { None };
